@@ -28,8 +28,8 @@ CHECKS = {
          "metrics bounded by 2^20; HarfBuzz by contract; scale arithmetic inside HarfBuzz outside"),
  "C13": ("history independence by comparing an object used before with a fresh one on symbolic arguments: shaping.Segmenter.Split (two inputs), segmenter.Segmenter.Init (two symbolic class sequences), HarfbuzzShaper.Shape (two inputs over two faces of one font, every font-cache size in the bound, HarfBuzz by a contract keyed by face) and LineWrapper.WrapParagraph (two paragraphs on one wrapper)",
          "the itemizer, the UAX segmenter, the shaper's font LRU and the line wrapper's scratch state are covered within the stated text bounds; the HarfBuzz plan cache (shapePlan.equal) and its per-font caches, font.Face settings (SetVariations/SetPpem followed by queries, see C17 for the write sets) and histories longer than two operations are not covered"),
- "C14": ("the real FontMap.ResolveFace / SetQuery / SetScript / rune LRU on histories over a database with symbolic coverage, with arbitrary candidate lists per (query, script): non-nil result and equality with an uncached reference computed from the current state only",
-         "candidate construction (family substitution, exact-family selection) is stubbed by contract; maphash is a concrete FNV fold for concrete strings (collisions not explored); AddFace/AddFont, font loading errors and system fonts are outside; histories and the probed rune domain are bounded as stated"),
+ "C14": ("the real FontMap.ResolveFace / SetQuery / SetScript / rune LRU on histories over a database with symbolic coverage, with arbitrary candidate lists per (query, script): non-nil result and equality with an uncached reference computed from the current state only; and the real candidate construction (buildCandidates with the real substitution table, retainsBestMatches) on databases grown by AddFace during the history, every lookup compared with a fresh FontMap fed with the same faces, query and script",
+         "H-C14-resolve stubs candidate construction by contract and makes coverage symbolic; H-C14-addface runs the real candidate construction but over small concrete alphabets (families {a,b}, runes {A,B}), so its histories are case-split rather than symbolic and the solver only prunes; maphash is a concrete FNV fold for concrete strings (collisions not explored); AddFont, font loading errors, system fonts, generic families and ResolveFaceForLang are outside; histories and the probed rune domain are bounded as stated"),
  "C15": ("symbolic execution of the real retainsBestMatches/matchStretch/matchStyle/matchWeight/filterBy* over candidate sets whose aspects are symbolic grid values (IEEE float32 terms), every request case-split; the solver decides equality with a CSS Fonts §5.2 reference for all candidate multisets of the bounded size",
          "values off the grid and larger candidate sets outside"),
  "C16": ("every deserializer of the index format (string, aspect, script/rune/lang sets, footprint, footprint list, file entry) executed on arbitrary symbolic byte strings (totality, read counts) and serialize->deserialize round trips of symbolic footprints and file entries, float aspects compared by bit pattern",
